@@ -481,7 +481,7 @@ def c16(ck):
     # the same algebra for ALL entry counts and store sizes (unbounded integers), discharged by Apalache
     vlib.apalache("LayoutInd", "Inv", ck.scratch)
     ck.extra["unbounded_lemma"] = "LayoutInd!Inv (Increasing, Aligned, Unique padding, mode-word algebra) discharged by Apalache for all naturals"
-    events = run_pkg(ck, binary, ["--families", "assets,built,gen,mutants", "--n", 300 if thorough else 24,
+    events = run_pkg(ck, binary, ["--families", "assets,built,gen,mutants,slack", "--n", 300 if thorough else 24,
                                   "--mutants", 20000 if thorough else 600, "--gets", "0",
                                   "--maxbytes", 400000 if thorough else 65536],
                      own=("C16:",), gen_cfg="Gen_Hdr_thorough.cfg" if thorough else "Gen_Hdr_quick.cfg")
